@@ -49,3 +49,75 @@ Definition wf_header (h : header) : Prop :=
 Definition wf_message (m : message) : Prop :=
   wf_header (m_hdr m) /\ Forall wf_query (m_queries m) /\ Forall wf_rr (m_answers m)
   /\ Forall wf_rr (m_authority m) /\ Forall wf_rr (m_additional m).
+
+(** ------------------------------------------------------------------ what is on the wire --- *)
+
+(** the bytes [x] sit at offset [p] of the message [M] *)
+Definition at_ (M : list N) (p : N) (x : list N) : Prop :=
+  exists pre post, M = pre ++ x ++ post /\ blen pre = p.
+
+
+(** [nbe M b p ls q]: starting at offset [p] of [M] one reads the labels [ls] in RFC 1035 form
+    (labels of 1..63 bytes, a final zero byte or a compression pointer to an earlier name whose own
+    pointers stay below its start); every pointer met targets an offset below [b]; [q] is where
+    the reader continues afterwards (after the zero byte, or after the first pointer). *)
+Inductive nbe (M : list N) : N -> N -> list label -> N -> Prop :=
+| nbe_end b p : at_ M p [0] -> nbe M b p [] (p + 1)
+| nbe_label b p l ls q :
+    1 <= blen l <= 63 -> at_ M p (blen l :: l) -> nbe M b (p + 1 + blen l) ls q -> nbe M b p (l :: ls) q
+| nbe_ptr b p t ls q' :
+    ls <> [] -> t < 16384 -> t < b -> at_ M p (to_be 2 (N.lor 49152 t)) -> nbe M t t ls q' ->
+    nbe M b p ls (p + 2).
+
+
+(** every entry of the compression dictionary points (below 2^14, below the write position) at a
+    place of the message where exactly that name suffix can be read *)
+Definition dict_inv (M : list N) (pos : N) (d : dict) : Prop :=
+  forall k off, In (k, off) d -> off < 16384 /\ off < pos /\ k <> [] /\ exists q, nbe M off off k q.
+
+
+Definition fixed_size (t : fty) : option N :=
+  match t with
+  | FU k => Some (N.of_nat k) | FU48 => Some 6 | FS32 => Some 4 | FBytes k => Some (N.of_nat k)
+  | _ => None
+  end.
+
+(** a schema is usable when a "rest of the rdata" field is the last one and is preceded by
+    fixed-size fields adding up to exactly the header size it subtracts; [c] = rdata bytes before *)
+Fixpoint rest_ok (c : option N) (ts : list fty) : bool :=
+  match ts with
+  | [] => true
+  | FRest h :: r =>
+      match c with Some c0 => (h =? c0) && match r with [] => true | _ => false end | None => false end
+  | FCharstrs :: r =>
+      match c with Some c0 => (c0 =? 0) && match r with [] => true | _ => false end | None => false end
+  | t :: r => rest_ok (match c, fixed_size t with Some c0, Some k => Some (c0 + k) | _, _ => None end) r
+  end.
+
+
+(** ------------------------------------------------------------------ contents made of bytes --- *)
+
+Definition bytes_lt (b : list N) : Prop := Forall (fun x => x < 256) b.
+Definition name_bytes (ls : list label) : Prop := Forall bytes_lt ls.
+
+Definition fval_bytes (v : fval) : Prop :=
+  match v with
+  | VU _ | VS _ => True
+  | VName ls => name_bytes ls
+  | VBytes b => bytes_lt b
+  | VList l => Forall bytes_lt l
+  | VA6 p s n => p < 256 /\ bytes_lt s /\ name_bytes n
+  end.
+
+Definition rr_bytes (r : rr) : Prop := name_bytes (r_name r) /\ Forall fval_bytes (r_data r).
+
+(** every label, address, string and opaque payload of the message consists of bytes *)
+Definition message_bytes (m : message) : Prop :=
+  Forall (fun q => name_bytes (q_name q)) (m_queries m) /\ Forall rr_bytes (m_answers m)
+  /\ Forall rr_bytes (m_authority m) /\ Forall rr_bytes (m_additional m).
+
+(** the header with its TC bit replaced *)
+Definition set_trunc (h : header) (t : N) : header :=
+  mkH (h_id h) (h_answer h) (h_opCode h) (h_auth h) t (h_recDes h) (h_recAv h) (h_authenticData h)
+      (h_checkingDisabled h) (h_rCode h).
+
